@@ -197,6 +197,11 @@ def generate(tier, rng):
     # (c) malformed / scalar texts
     for t in MALFORMED:
         yield case(t, std)
+    # tokens Python's json accepts although they are not JSON (D20)
+    for t in ('NaN', 'Infinity', '-Infinity', '[NaN]', '{"jsonrpc":"2.0","method":"echo","params":[NaN],"id":1}',
+              '{"jsonrpc":"2.0","method":"echo","params":{"a":-Infinity},"id":2}', '{"jsonrpc":"2.0","method":"noargs","id":1,"x":Infinity}',
+              '[{"jsonrpc":"2.0","method":"echo","params":[Infinity]}]'):
+        yield case(t, std, tag='non-json-token')
     yield case('{"jsonrpc":"2.0","method":"noargs","id":' + '7' * 5000 + '}', std, tag='digit-limit')
     yield case('[' + '1' * 4301 + ']', std, tag='digit-limit')
     yield case('{"jsonrpc":"2.0","method":"echo","id":1,"params":[' + '9' * 4300 + ']}', std)
@@ -399,6 +404,13 @@ def relevant(prop, c):
         # the library's own behaviour: no user middlewares / error handlers in the way
         return not c['cfg'].get('middlewares') and not c['cfg'].get('handlers')
     return True
+
+
+def region(prop, c):
+    """inputs inside a *recorded* finding's region are decided by the oracle alone"""
+    if prop == 'C03' and c.get('tag') == 'non-json-token':
+        return 'token:NaN|Infinity|-Infinity'
+    return None
 
 
 def _proj_one(prop, c, o):
